@@ -15,7 +15,7 @@ import (
 var propChecks = map[string]func(*Check) int{}
 
 func init() {
-	for _, p := range []string{"C01", "C02", "C03", "C04", "C05", "C06", "C08", "C09", "C10", "C11", "C13", "C14", "C15", "C16", "C17", "C18"} {
+	for _, p := range []string{"C01", "C02", "C03", "C04", "C05", "C06", "C08", "C09", "C11", "C13", "C14", "C15", "C16", "C17", "C18"} {
 		propChecks[p] = proofCheck
 	}
 }
@@ -68,6 +68,9 @@ func proofCheck(ck *Check) int {
 
 var extraChecks = map[string]func(*Check){}
 
+// at most this many failed solver obligations get a replay file and a VIOLATION line each
+const maxViolationLines = 25
+
 func (ck *Check) finish(level string) int {
 	known := loadKnown(ck.Verif)
 	isKnown := func(name string) *KnownFinding {
@@ -114,6 +117,11 @@ func (ck *Check) finish(level string) int {
 			continue
 		}
 		violations++
+		if violations > maxViolationLines {
+			// the first lines name the violation; the rest are listed in the evidence file
+			failed = append(failed, map[string]any{"obligation": r.VC.Name, "status": r.Status, "clause": r.VC.Src, "pos": r.VC.Pos})
+			continue
+		}
 		path, confirmed := ck.writeReplay(replayDir, r)
 		suffix := ""
 		if !confirmed {
@@ -317,6 +325,12 @@ func (ck *Check) writeReplay(dir string, r *Result) (string, bool) {
 			}
 		}
 	}
+	if ck.replayExtra != nil {
+		if d, conf := ck.replayExtra(r); d != nil {
+			rep["concrete_search_on_real_code"] = d
+			confirmed = confirmed || conf
+		}
+	}
 	rep["confirmed_on_real_code"] = confirmed
 	writeJSON(p, rep)
 	return p, confirmed
@@ -396,10 +410,67 @@ func (ck *Check) lemmaTexts(x *Exec, names []string) map[string]string {
 		if lm.Axiom {
 			ck.assume["axiom "+n+": "+lm.Src] = true
 		}
+		if lm.DataFact {
+			ck.dataFact(n, lm)
+		}
 	}
 	return out
 }
 
+var pkgRefRe = regexp.MustCompile(`\b([a-z][A-Za-z0-9_]*)\.[A-Z]`)
+
+// dataFact discharges a `datafact` (a Go boolean expression over
+// package-level values) by evaluating it on the real package, once per check.
+func (ck *Check) dataFact(n string, lm *Lemma) {
+	if ck.dataFactDone == nil {
+		ck.dataFactDone = map[string]bool{}
+	}
+	if ck.dataFactDone[n] || ck.Verif == "" {
+		return
+	}
+	ck.dataFactDone[n] = true
+	P := ck.P
+	sp := P.findPkg(lm.Pkg)
+	d := map[string]any{"name": "datafact/" + n, "kind": "Go boolean expression over package-level values, evaluated on the real package", "clause": lm.Src}
+	if sp == nil {
+		d["ok"] = false
+		d["error"] = "package " + lm.Pkg + " not found"
+		ck.dataObl = append(ck.dataObl, d)
+		return
+	}
+	imports := map[string]string{}
+	for _, m := range pkgRefRe.FindAllStringSubmatch(lm.Src, -1) {
+		if q := P.findPkg(m[1]); q != nil && q != sp {
+			imports[m[1]] = q.Pkg.Path()
+		}
+	}
+	var body strings.Builder
+	fmt.Fprintf(&body, "package %s\n\nimport (\n\t\"fmt\"\n\t\"testing\"\n", sp.Pkg.Name())
+	for _, k := range sortedKeys(toSet(imports)) {
+		fmt.Fprintf(&body, "\t%s %q\n", k, imports[k])
+	}
+	fmt.Fprintf(&body, ")\n\nfunc TestGovcDataFact(t *testing.T) {\n\tfmt.Printf(\"GOVC-DATAFACT %%v\\n\", %s)\n}\n", lm.Src)
+	out, err := ck.runOverlayTest(pkgDirOf(P, sp.Pkg), "zz_govc_datafact_test.go", body.String(), "^TestGovcDataFact$", 60*time.Second)
+	switch {
+	case strings.Contains(out, "GOVC-DATAFACT true"):
+		d["ok"] = true
+	case strings.Contains(out, "GOVC-DATAFACT false"):
+		d["ok"] = false
+		d["observed"] = "the expression evaluates to false on the real package"
+	default:
+		d["ok"] = false
+		d["error"] = fmt.Sprintf("%v %s", err, firstLines(out, 15))
+	}
+	ck.dataObl = append(ck.dataObl, d)
+}
+
+func toSet(m map[string]string) map[string]bool {
+	o := map[string]bool{}
+	for k := range m {
+		o[k] = true
+	}
+	return o
+}
 
 // findingCanaries re-runs, on the real code, the demonstration of every
 // repaired defect recorded for this property: a fixed finding suppresses
@@ -649,11 +720,11 @@ func (ck *Check) inventory() {
 		ck.extraCov = map[string]any{}
 	}
 	ck.extraCov["inventory"] = map[string]any{
-		"bodies_under_the_safety_sweep":                    verified,
-		"bodies_swept_with_assumed_postconditions":         postAssumed,
-		"executed_in_place_inside_their_callers":           transparent,
+		"bodies_under_the_safety_sweep":                              verified,
+		"bodies_swept_with_assumed_postconditions":                   postAssumed,
+		"executed_in_place_inside_their_callers":                     transparent,
 		"bodies_NOT_swept_(trusted_contract,_bounded_stand-in_only)": trustedBody,
-		"no_contract_(not_swept)":                          none,
+		"no_contract_(not_swept)":                                    none,
 	}
 	for _, n := range none {
 		ck.assume["not under the safety sweep: "+n] = true
